@@ -132,6 +132,9 @@ func main() {
 	if err := flag.CommandLine.Parse(os.Args[1:]); err != nil {
 		os.Exit(3)
 	}
+	if *flightFile != "" {
+		os.Exit(runFlightFile(*flightFile))
+	}
 	byName := map[string]scenario{}
 	for _, s := range scenarios {
 		byName[s.name] = s
